@@ -253,7 +253,7 @@ RULES = [
 
 
 from . import shared
-RULES = RULES + shared.bundle('C14', ['tablebounds', 'intdiv', 'drivers', 'gpu', 'gate', 'restart', 'driver', 'norm', 'loops'], ['kernel'])
+RULES = RULES + shared.bundle('C14', ['f2i', 'tablebounds', 'intdiv', 'drivers', 'gpu', 'gate', 'restart', 'driver', 'norm', 'loops'], ['kernel'])
 from . import folds as _folds
 RULES = RULES + [_folds.fold_rule('C14')]
 from .. import refs as _refs
